@@ -127,6 +127,8 @@ def judge(ctx, status: str) -> list[dict]:
                             phase=r.phase,
                             got="missing" if got is None else "other",
                             with_network_headers=bool(headers),
+                            # negative mode may generate a *header* literally named Cookie, which replaces the cookie jar
+                            generated_cookie_header=bool(loc == "cookies" and r.request.header("Cookie") is not None),
                         )
             # R4: provider data on exactly the operations its own filters select
             if pconf is not None:
